@@ -1,4 +1,5 @@
 CONSTANTS
+  EmptyYields = FALSE
   PinnedEnv = FALSE
   Accumulate = FALSE
   PinnedVars = FALSE
